@@ -505,6 +505,18 @@ def reentrant_program(draw, g):
     if k == 6:      # the same inline item as callback of nested for-each
         f = ['inline', ['x'], ['arith', '+', x, g.lit_int()]]
         return ['let', [['f', f]], ['call', 'for-each', [S, ['inline', ['y'], ['call', 'sum', [['call', 'for-each', [['seq', y, ['dyn', ['var', 'f'], [y]]], ['var', 'f']]]]]]]]]
+    if k == 6 and draw(_upto(1)):
+        # a HOF whose first argument has an inner focus (predicate) and whose other arguments read the outer focus
+        inner = ['filter', T, ['vcmp', _sf(draw, _CMP), ['pos'], _sf(draw, [['last'], ['int', 1], ['int', 2]])]]
+        add2 = ['inline', ['a', 'b'], ['arith', '+', ['arith', '*', ['var', 'a'], ['int', 10]], ['var', 'b']]]
+        hof = _sf(draw, ['for-each-pair', 'for-each-pair', 'fold-left', 'fold-right', 'apply'])
+        if hof == 'for-each-pair':
+            e = ['call', 'for-each-pair', [inner, ['seq', ['ctx'], ['ctx'], ['pos']], add2]]
+        elif hof == 'apply':
+            e = ['call', 'apply', [add2, ['array', [['filter', inner, ['int', 1]], ['ctx']]]]]
+        else:
+            e = ['call', hof, [inner, ['ctx'], add2]]
+        return ['map', S, ['seq', e, ['ctx']]]
     if k == 7 and draw(_upto(1)):
         # ONE named-reference expression evaluated again (recursion) while a call of its earlier result is active
         n, f = ['var', 'n'], ['var', 'f']
